@@ -400,7 +400,8 @@ class Ctx:
         os.makedirs(self.work, exist_ok=True)
         os.makedirs(os.path.join(root, "replays"), exist_ok=True)
         os.makedirs(os.path.join(root, "evidence"), exist_ok=True)
-        self.harness = os.path.join(root, "harness", "target", "release", "lru-verif-harness")
+        # VERIF_HARNESS_BIN: a coverage-instrumented build of the same harness (tools/coverage.py), never set by a registered command
+        self.harness = os.environ.get("VERIF_HARNESS_BIN") or os.path.join(root, "harness", "target", "release", "lru-verif-harness")
         self.driver = os.path.join(root, "lean", ".lake", "build", "bin", "lrudriver")
         self.hooks = True
         self.t0 = time.time()
